@@ -775,7 +775,7 @@ def remove_fields(arr, rmnames):
         Created 2007, Erin Sheldon, NYU.
     """
 
-    if not isinstance(rmnames, list):
+    if not isinstance(rmnames, (tuple, list, np.ndarray)):
         rmnames = [rmnames]
 
     descr = arr.dtype.descr
